@@ -109,6 +109,9 @@ STATEMENT_STATUS: Dict[str, str] = {
     "header_ignored": "proved: the FontFile bytes have no influence unless the font is non-Type3, non-standard-14 and "
                       "has no Encoding entry",
     "exampleHeader_puts / put_underflow_ignored / odd_dict_raises": "proved by kernel evaluation of the tokeniser model on concrete headers",
+    "differences_runs / run_numbering": "proved: a Differences array of any number of runs - the i-th name of a run starting at "
+                                        "`first` gets code first + i for every i (no stop / wrap at 255, negative starts), "
+                                        "the last assignment in whichever run wins, other codes keep the base encoding",
     "name2unicode_exact / name2unicode_exact_pdfminer / pdfminerAgl_judged / pdfminerAgl_deviations":
         "proved: name2unicode on EVERY glyph name = AGL section 2 with exactly two deviations (either-case hexadecimal "
         "digits; a component without a value makes the name undefined); on judged names this is AGL itself",
@@ -1477,6 +1480,22 @@ def run_encodings(ctx: C.Ctx) -> None:
     for _ in range(ctx.n(800, 20000)):
         diff, kinds = gen_diff(rng)
         cases.append((rng.choice(ENC_CHOICES), diff, kinds))
+    for _ in range(ctx.n(60, 1500)):
+        # Differences written as RUNS (theorem differences_runs): several runs, runs that cross 255 or start below 0 or
+        # beyond 255, runs that re-assign codes of earlier runs
+        diff = []
+        kinds = ["diff:runs"]
+        for _ in range(rng.randint(1, 5)):
+            first = rng.choice([rng.randint(0, 255), rng.randint(248, 262), rng.randint(-4, 2), 255, 256])
+            k = rng.randint(0, 9)
+            if first + k > 256:
+                kinds.append("diff:run-crosses-255")
+            if first < 0:
+                kinds.append("diff:run-negative-start")
+            diff.append(first)
+            for _ in range(k):
+                diff.append(("s", gen_component(rng, "list")[0]) if rng.random() < 0.7 else gen_name(rng)[0])
+        cases.append((rng.choice(ENC_CHOICES), diff, sorted(set(kinds))))
     check_encodings(ctx, cases)
 
 
